@@ -621,6 +621,8 @@ func TestVerifC04(t *testing.T) {
 			runB(rec, &c)
 		case "C":
 			runC(rec, &c)
+		case "D":
+			runD(rec, &c)
 		}
 		return
 	}
@@ -648,6 +650,14 @@ func TestVerifC04(t *testing.T) {
 		for _, c := range cCases(rec) {
 			if mine(rec, false, idx) {
 				runC(rec, c)
+			}
+			idx++
+		}
+	}
+	if want("D") {
+		for _, c := range dCases(rec) {
+			if mine(rec, false, idx) {
+				runD(rec, c)
 			}
 			idx++
 		}
